@@ -21,7 +21,12 @@ Note(cond, name) == IF cond \/ fail # "ok" THEN fail ELSE name
 
 \* one step per logged event; the measured fields are bound to the model's abstract flags
 TVolumes == /\ Ev.e = "Volumes" /\ Volumes
-            /\ fail' = Note(Abs(Ev.dvf_ppm) <= 1 /\ Abs(Ev.dvp_ppm) <= 1, "volumes not preserved")
+            \* the resistance the pipe solve aims at is the ORIGINAL exchanger's convective-plus-pipe resistance as documented:
+            \*   double-U: 1 / (h_f n pi (2 r_in)^2) + ln(r_out / r_in) / (n 2 pi k_pipe), n = 4 tubes (the tool's definition);
+            \*   coaxial : 1 / (h_annulus,outer wall 2 pi r_out_in) + ln(r_out_out / r_out_in) / (2 pi k_OUTER pipe).
+            \* target_ppm is the deviation of the tool's target from this definition evaluated by the harness on the raw inputs.
+            /\ fail' = IF ~(Abs(Ev.dvf_ppm) <= 1 /\ Abs(Ev.dvp_ppm) <= 1) THEN Note(FALSE, "volumes not preserved")
+                       ELSE Note(Abs(Ev.target_ppm) <= 1, "the target of the pipe solve is not the original's convective-plus-pipe resistance")
             /\ l' = l + 1 /\ UNCHANGED tid
 TRadii == /\ Ev.e = "Radii" /\ EqualVolumeRadii /\ l' = l + 1 /\ UNCHANGED <<tid, fail>>
 TPipeK == /\ Ev.e = "SolvePipeK" /\ SolvePipeK(Ev.oc)
